@@ -180,8 +180,23 @@ func exitChecks() int { return verif_ghost_int("exitChecks") }
 // (decoding the immediates and the block bookkeeping around a loop header are not under contract:
 // assumed to emit no exit code check and to leave the execution-context value alone)
 //@ func (c *Compiler) readI32u() uint32
-//@   trusted
+//@   requires c.loweringState.pc >= 0 && c.loweringState.pc < 1<<40
+//@   may-panic !(c.loweringState.pc+1 < len(c.wasmFunctionBody) && c.wasmFunctionBody[c.loweringState.pc+1] < 0x80)
+//@   ensures[single-byte-immediate] old(c.loweringState.pc)+1 < len(c.wasmFunctionBody) && c.wasmFunctionBody[old(c.loweringState.pc)+1] < 0x80 ==> c.loweringState.pc == old(c.loweringState.pc)+1 && r0 == uint32(c.wasmFunctionBody[old(c.loweringState.pc)+1])
 //@   modifies c.loweringState.pc
+//@   nosafety keep-pre
+//@ func (c *Compiler) readI32s() int32
+//@   requires c.loweringState.pc >= 0 && c.loweringState.pc < 1<<40
+//@   may-panic !(c.loweringState.pc+1 < len(c.wasmFunctionBody) && c.wasmFunctionBody[c.loweringState.pc+1] < 0x80)
+//@   ensures[single-byte-immediate] old(c.loweringState.pc)+1 < len(c.wasmFunctionBody) && c.wasmFunctionBody[old(c.loweringState.pc)+1] < 0x80 ==> c.loweringState.pc == old(c.loweringState.pc)+1
+//@   modifies c.loweringState.pc
+//@   nosafety keep-pre
+//@ func (c *Compiler) readI64s() int64
+//@   requires c.loweringState.pc >= 0 && c.loweringState.pc < 1<<40
+//@   may-panic !(c.loweringState.pc+1 < len(c.wasmFunctionBody) && c.wasmFunctionBody[c.loweringState.pc+1] < 0x80)
+//@   ensures[single-byte-immediate] old(c.loweringState.pc)+1 < len(c.wasmFunctionBody) && c.wasmFunctionBody[old(c.loweringState.pc)+1] < 0x80 ==> c.loweringState.pc == old(c.loweringState.pc)+1
+//@   modifies c.loweringState.pc
+//@   nosafety keep-pre
 //@ func (c *Compiler) readBlockType() *wasm.FunctionType
 //@   trusted
 //@   ensures r0 != nil
